@@ -14,6 +14,8 @@ def run(ctx):
     rg.run_tables(ctx, "R06.1e", "R06.1", do_export=False)
     # ---- R06.2 nothing silently dropped
     ctx.rule("R06.2", "every GDSII element kind is imported into instances / elements / labels or reported; no importer returns Ok(None)")
+    from rules import C17 as c17
+    c17.run(ctx.sub("R06.2o", "the GDSII structure orderer (definitions before references) satisfies the orderer rules of C17"), only=lambda f: f.id.startswith("layout21raw::gds::"), floors=False)
     lay = select(F, rg.PFX, [rg.IMP, r"^&gds21::GdsStruct$"], r"Result<data::Layout,")
     if len(lay) != 1:
         ctx.error("R06.2", "import_layout not found")
